@@ -296,6 +296,31 @@ def add_warm(rng, spec):
                 warm={"edits": edits, "first_expect": rng.choice(EXPECTS), "first_kind": rng.choice([None, None, "inner", "left", "full"])})
 
 
+def scripted_warm(prefix, kinds=("inner", "left", "full"), expects=None, variants=(0, 1, 2, 5)):
+    """deterministic warm cases: an earlier join (every kind x every expectation) on tables whose keys are unique / duplicated,
+    then ONE in-place key edit that creates or removes a duplicate on the left or on the right, then the judged call under every
+    expectation.  Whatever the first call remembered about uniqueness, buckets or pairs is stale for the judged one."""
+    expects = expects or EXPECTS
+    scenes = [  # (final lk, final rk, edit)
+        ([1, 2, 3], [1, 1, 4], [1, 0, 1, 2]),      # right: unique -> duplicate (matching)
+        ([1, 2, 3], [1, 4, 4], [1, 0, 2, 5]),      # right: unique -> duplicate among unmatched rows
+        ([1, 2, 3], [1, 2, 4], [1, 0, 1, 1]),      # right: duplicate -> unique
+        ([1, 1, 3], [1, 2, 4], [0, 0, 1, 2]),      # left: unique -> duplicate
+        ([1, 2, 3], [1, 2, 4], [0, 0, 1, 1]),      # left: duplicate -> unique
+        ([1, 2, 3], [3, 2, 1], [1, 0, 0, 5]),      # right: a match appears
+    ]
+    i = 0
+    for kind in kinds:
+        for first_kind in (None, "inner" if kind != "inner" else "full"):
+            for first_expect in EXPECTS:
+                for lk, rk, edit in scenes:
+                    for e in expects:
+                        i += 1
+                        yield {"fam": prefix + ".warm", "kind": kind, "expect": e, "lk": [list(lk)], "rk": [list(rk)],
+                               "v": variants[i % len(variants)], "mm": True,
+                               "warm": {"edits": [list(edit)], "first_expect": first_expect, "first_kind": first_kind}}
+
+
 def execute(spec):
     x = expand(_pre_edit(spec))
     refused = _warm(spec, x)
